@@ -78,3 +78,18 @@ PROPS['C18'] = {
                   'nodes, entries/groups partition the children. The model is tied to Group::{iter,get,get_mut,entries,groups} by a '
                   'differential run on generated trees.',
 }
+
+PROPS['C17'] = {
+    'ops': ['history'],
+    'rule': 'random sequences (1..14 ops) over real entries: field/tag/colour/auto-type/custom-data/icon/url edits, edits of other time stamps, '
+            'direct modification-time edits, history initialisation, externally built items carrying their own (nested) history, commits; '
+            '"now" observed by bracketing update_history between two clock reads; content compared through an interned canonical dump. '
+            'distinct by hash of (initial state, op list); non-trivial = the sequence has a commit after a change and a commit without one',
+    'assumptions': ['content token = canonical dump of every field except times and history (injective by construction of the dump)',
+                    'Times::now() returns the same second before and after the call (retried otherwise)'],
+    'level_text': 'Kernel-checked theorems for every entry and every operation sequence: a commit adds an item iff the entry differs from the '
+                  'newest item (ignoring times/history) or has no history; then the head item is the stripped entry stamped now; otherwise '
+                  'nothing changes; two commits in a row add at most one item; earlier items survive as a suffix; no nesting. Model tied to '
+                  'Entry::update_history / History::add_entry by a differential run over generated operation sequences, and the clauses are '
+                  're-evaluated on the real trace.',
+}
